@@ -1,6 +1,7 @@
 /- Driver commands for the gateway model: op parsing and the canonical observation line. -/
 import MySensors.Driver.Wire
 import MySensors.Model.Gateway
+import MySensors.Model.UpdateFw
 
 namespace MySensors.Driver
 open MySensors
@@ -92,6 +93,11 @@ def parseOp (cmd : String) (args : List String) : Option Op :=
   | "U", [nids, t, v, img] => do
     let image ← if img == "-" then some none else (parseHexBytes img).map some
     some (.update (← parseIntList nids) (← decInt t) (← decInt v) image)
+  | "UF", [nids, t, v, f] => do
+    -- Gateway.update_fw with a firmware file: "-" no path, "!" unreadable path, else the file's text
+    let file ← if f == "-" then some FwFile.noPath else if f == "!" then some FwFile.unreadable
+               else (decStr f).map FwFile.text
+    some (updateFwOp (← parseIntList nids) (← decInt t) (← decInt v) file)
   | "T", [t] => (decInt t).map Op.clock
   | "M", [b] => some (.metric (b == "1"))
   | "K", [] => some .saveTick
